@@ -15,11 +15,13 @@ open ICal ICal.Codec
 
 /-- What C11 assumes of the time zone library, for the ids `ids` it lists (not provable: it is the tz
     database; checked for every id of zoneinfo and pytz by harness/props/C11.py):
-    asking for a listed id gives a zone whose id is that id; listed ids need no cleaning; the zone
+    asking for a listed id gives a zone whose id is that id; listed ids need no cleaning and are not
+    empty (`if tzid:` in vDatetime / vPeriod / vDDDLists drops an empty id); the zone
     `localize_utc` attaches is called `UTC` and has offset 0. -/
 structure ProviderLaws {Z : Type} (P : Provider Z) (ids : Str → Prop) : Prop where
   ids_zone : ∀ k, ids k → ∃ z, P.zone k = some z ∧ P.key z = k
   ids_clean : ∀ k, ids k → cleanTzid k = k
+  ids_nonempty : ∀ k, ids k → k ≠ []
   utc_key : P.key P.utc = UTC
   utc_off : ∀ w, P.off P.utc w = 0
 
